@@ -8,7 +8,7 @@ from ..vec import El, Sc, Vec
 from .c17 import equal_flags, t10
 
 DATA_CARRIERS = ['list_none', 'list_nan', 'tuple_nan', 'ndarray', 'series', 'masked_nan', 'masked']
-TIME_CARRIERS = ['dt64', 'dt64_s', 'epoch_list', 'epoch_array', 'series', 'series_tz', 'dtindex', 'dtindex_tz', 'pydatetime', 'dtindex_s', 'dtindex_ms', 'series_s', 'series_us']
+TIME_CARRIERS = ['dt64', 'dt64_s', 'epoch_list', 'epoch_array', 'series', 'series_tz', 'dtindex', 'dtindex_tz', 'pydatetime', 'dtindex_s', 'dtindex_ms', 'series_s', 'series_us', 'epoch_series', 'epoch_index']
 
 
 def tests():
@@ -159,7 +159,7 @@ def run(ck):
                      label=f'{test}({"p" * n!r}; times {[str(x) for x in tsub[:n]]} s; time={tc})')
             return c, run_case(ck, c, allow_refused=True)
         cb, ob = run_f('dt64')
-        for tc in ('epoch_list', 'epoch_array', 'series', 'dtindex', 'dtindex_tz', 'pydatetime'):
+        for tc in ('epoch_list', 'epoch_array', 'epoch_series', 'series', 'dtindex', 'dtindex_tz', 'pydatetime'):
             cx, ox = run_f(tc)
             compare(ck, 'C15.time', test, tc + ':sub-second', cb, ob, cx, ox)
     # pressure_increasing_test: present values only (the test documents no missing handling) + None vs NaN
